@@ -40,8 +40,10 @@ def half_fact(t, T):
 
 
 def diff_fact(a, b, d):
+    """a >= b, d = a - b -> phi(d) = phi(a) - phi(b) mod r, written the way the code computes it (values of phi are < r)"""
     hyp = z3.And(z3.UGE(a, b), d == a - b)
-    return z3.Implies(hyp, z3.And(z3.Or(zx(PHI(d)) + zx(PHI(b)) == zx(PHI(a)), zx(PHI(d)) + zx(PHI(b)) == zx(PHI(a)) + zx(QV)), z3.ULT(PHI(d), QV)))
+    pa, pb = PHI(a), PHI(b)
+    return z3.Implies(hyp, PHI(d) == z3.If(z3.ULT(pa, pb), pa - pb + QV, pa - pb))
 
 
 def loop_heads(fn):
@@ -79,6 +81,7 @@ def setup(ex):
     heads = loop_heads(fn)
     ctx = ex.ctx
     ctx.inv_heads = heads
+    ctx.inv_joins = []
 
     def state(ex_, fr):
         out = {}
@@ -92,20 +95,43 @@ def setup(ex):
         prev = {k: ex_.store.get(("LCSTATE", fr.id, k)) for k in allocs}
         if any(v is None for v in prev.values()):
             prev = None
+        g = ex_.guard
+        cases = [(True, "")]
+        hyps = []
         if prev is None:
             # initiation: facts defining phi for this input
             X = ctx.inv_x
             ctx.add_fact(PHI(QV) == 0)
             ctx.add_fact(z3.Implies(X != 0, PHI(X) == z3.BitVecVal(C, 256)))
         else:
-            for k1, k2 in (("v", "s"), ("u", "r")):
-                ctx.add_fact(half_fact(st[k1], prev[k1]))
-            ctx.add_fact(diff_fact(prev["v"], prev["u"], st["v"]))
-            ctx.add_fact(diff_fact(prev["u"], prev["v"], st["u"]))
+            # instances of the linearity of phi relating this state to the state assumed at the last cut; they are
+            # hypotheses of these obligations only (true facts, kept local to keep the queries small)
+            for k1 in ("v", "u"):
+                hyps.append(half_fact(st[k1], prev[k1]))
+            hyps.append(diff_fact(prev["v"], prev["u"], st["v"]))
+            hyps.append(diff_fact(prev["u"], prev["v"], st["u"]))
+            cases = [(z3.UGE(prev["v"], prev["u"]), " [v >= u]"), (z3.ULT(prev["v"], prev["u"]), " [v < u]")]
         what = "initiation" if prev is None else "preservation"
-        g = ex_.guard
-        for lab, c in (("s = phi(v)", st["s"] == PHI(st["v"])), ("r = phi(u)", st["r"] == PHI(st["u"])), ("r, s < modulus", z3.And(z3.ULT(st["r"], QV), z3.ULT(st["s"], QV)))):
-            ctx.obligations.append(Obligation("Inverse loop invariant %s at block %d: %s" % (what, blk, lab), b_and(g, z3.Not(c)), "assert"))
+        goals = lambda: (("s = phi(v)", st["s"] == PHI(st["v"])), ("r = phi(u)", st["r"] == PHI(st["u"])), ("r, s < modulus", z3.And(z3.ULT(st["r"], QV), z3.ULT(st["s"], QV))))
+        if prev is not None and blk in ctx.inv_joins:
+            # after the subtraction step: two phi-free bit-vector lemmas per case (what the limb code computes), then
+            # the invariant from the lemmas and the linearity instance by equational reasoning
+            def subq(a, b):
+                return z3.If(z3.ULT(a, b), a - b + QV, a - b)
+            V, U, S, R_ = prev["v"], prev["u"], prev["s"], prev["r"]
+            for cg, cl, big, small, pb, ps, kb, ks, kpb, kps in ((z3.UGE(V, U), " [v >= u]", V, U, S, R_, "v", "u", "s", "r"), (z3.ULT(V, U), " [v < u]", U, V, R_, S, "u", "v", "r", "s")):
+                l1 = z3.And(st[kb] == big - small, st[ks] == small)
+                l2 = z3.And(st[kpb] == subq(pb, ps), st[kps] == ps)
+                ctx.obligations.append(Obligation("Inverse subtraction step at block %d%s: the larger of u, v is replaced by the difference, the other kept" % (blk, cl), b_and(g, cg, z3.Not(l1)), "assert"))
+                for bg, bl in ((z3.ULT(pb, ps), "borrow"), (z3.UGE(pb, ps), "no borrow")):
+                    ctx.obligations.append(Obligation("Inverse subtraction step at block %d%s, %s: its companion is replaced by the difference mod r, the other kept" % (blk, cl, bl), b_and(g, cg, bg, z3.Not(l2)), "assert"))
+                lin = diff_fact(big, small, big - small)
+                for lab, c in goals():
+                    ctx.obligations.append(Obligation("Inverse loop invariant preservation at block %d%s (from the two step lemmas): %s" % (blk, cl, lab), b_and(g, cg, l1, l2, lin, z3.Not(c)), "assert"))
+        else:
+            for cg, cl in cases:
+                for lab, c in goals():
+                    ctx.obligations.append(Obligation("Inverse loop invariant %s at block %d%s: %s" % (what, blk, cl, lab), b_and(g, cg, z3.And(*hyps) if hyps else True, z3.Not(c)), "assert"))
         if not first:
             return
         # havoc the four working variables, assume the invariant
@@ -120,7 +146,13 @@ def setup(ex):
         for k in fresh:
             ex_.write(("LCSTATE", fr.id, k), fresh[k])
         ex_.assume(z3.And(fresh["s"] == PHI(fresh["v"]), fresh["r"] == PHI(fresh["u"]), z3.ULT(fresh["r"], QV), z3.ULT(fresh["s"], QV)))
-    ctx.loop_cuts[FN] = {h: handler for h in heads}
+    # one more cut point inside the outer body: the block where the two subtraction branches meet (the exit tests follow it)
+    joins = [i for i, b in enumerate(fn["blocks"]) if i not in heads and len(b["preds"]) >= 3]
+    if len(joins) != 1:
+        raise D.Unsupported("Inverse: merge block of the subtraction branches not identified (%s)" % joins)
+    ctx.inv_heads = heads + joins
+    ctx.inv_joins = joins
+    ctx.loop_cuts[FN] = {h: handler for h in heads + joins}
 
 
 def job(alias):
@@ -147,7 +179,7 @@ def job(alias):
         obs.append(Obligation("Inverse(0) = 0", b_and(g, z3.And(X == 0, Z != 0)), "assert"))
         obs.append(Obligation("Inverse(x) = phi(1) = R^2 x^-1 mod r for x != 0", b_and(g, z3.And(X != 0, Z != PHI(z3.BitVecVal(1, 256)))), "assert"))
         obs.append(Obligation("Inverse result fully reduced", b_and(g, z3.Not(z3.ULT(Z, QV))), "assert"))
-    recs = D.discharge_all(ctx, extra=obs, timeout_ms=240000)
+    recs = D.discharge_all(ctx, extra=obs, timeout_ms=int(__import__("os").environ.get("VERIF_INV_TIMEOUT_MS", "240000")))
     info = ctx_info(ctx)
     info["loop_heads"] = ctx.inv_heads
     return {"group": "Inverse alias=%d [loop invariant]" % alias, "recs": recs, "info": info, "harness": h, "params": params, "mode": "inv"}
